@@ -9,12 +9,14 @@ Adds == {"add_import_func", "add_global", "add_memory", "add_import_memory", "ad
          "add_type", "add_type_parsed", "build"}
 Probes == {[f |-> 1, instr |-> 0, mode |-> m] : m \in {"before", "after", "alternate", "func_entry", "func_exit"}}
      \cup {[f |-> 2, instr |-> 0, mode |-> m] : m \in {"before", "block_entry", "block_exit", "semantic_after", "func_exit"}}
+     \* a probe in front of the function's closing `end` (instruction 1 of f1, 7 of f2): it is emitted, so it is reported
+     \cup {[f |-> 1, instr |-> 1, mode |-> "before"], [f |-> 2, instr |-> 7, mode |-> "before"]}
 Init == prog = <<>> /\ how \in {"pull", "encode_then_pull"}
 Step == /\ Len(prog) < MaxOps
         /\ LET n == Len(prog) + 1 IN
            \/ \E a \in Adds, t \in Tags(n) : prog' = Append(prog, [op |-> a, tag |-> t])
            \/ \E p \in Probes, t \in Tags(n), tg \in {1, 2} :
-                /\ ~\E i \in DOMAIN prog : prog[i].op = "probe" /\ prog[i].f = p.f /\ prog[i].mode = p.mode
+                /\ ~\E i \in DOMAIN prog : prog[i].op = "probe" /\ prog[i].f = p.f /\ prog[i].mode = p.mode /\ prog[i].instr = p.instr
                 \* a tag may be appended before or after the probe's code is injected
                 /\ \E tf \in BOOLEAN :
                      /\ (tf => (t # "" /\ p.mode \in {"before", "after", "alternate", "func_entry"}))
